@@ -231,7 +231,7 @@ def scan(repo=None):
                 tgt_s = ast.unparse(tgt)
                 # read back: the same function later hands the object to `<tgt>.__set__(..)` (which stores under
                 # and reports errors with that attribute) or reads `getattr(<tgt>, attr)` / `<tgt>.<attr>`
-                events = {"W": lineno, "S": [], "R": [], "N": []}
+                events = {"W": lineno, "S": [], "R": [], "N": [], "spans": _stmt_spans(fn)}
                 read_back = False
                 rhs_nodes = set()
                 for st in ast.walk(fn):
@@ -269,6 +269,17 @@ def scan(repo=None):
         visit(tree.body, None)
     rows.sort(key=lambda r: (r["path"], r["line"]))
     return rows
+
+
+def _stmt_spans(fn):
+    """[first line, last line] of every simple statement that spans several lines"""
+    out = []
+    for s in ast.walk(fn):
+        if isinstance(s, ast.stmt) and not isinstance(s, (ast.FunctionDef, ast.For, ast.If, ast.While, ast.With, ast.Try,
+                                                          ast.ClassDef)):
+            if (s.end_lineno or s.lineno) > s.lineno:
+                out.append([s.lineno, s.end_lineno])
+    return sorted(out)
 
 
 def _stmt_line(fn, node):
